@@ -1,4 +1,164 @@
-import IgrisModel.C04.Model
+/-
+  C04 — PROPERTY THEOREMS: gstuff framing is lossless.
+
+  "For every payload (any bytes, any length, any split into scatter-gather
+  pieces) and every framing variant the library ships, feeding the encoder's
+  output byte by byte to a receiver with a large enough buffer reports exactly
+  one completed packet, on the last byte, whose content equals the payload.
+  The frame starts with the start marker, ends with the stop marker, contains
+  no unescaped marker in between and is at most 2n+4 bytes long.  The encoders
+  that size their own output buffer never write outside it."
+-/
+import IgrisModel.C04.Lemmas
 namespace Igris.Gstuff
-theorem placeholder_c04 : True := trivial
+open Igris.Proto Igris.C17
+
+/-- both shipped alphabets are well-formed (non-vacuity of every `ctx.WF` hypothesis) -/
+theorem shipped_alphabets_wf : Ctx.v1.WF ∧ Ctx.v0.WF := by decide
+
+/-- the scatter-gather encoder depends only on the concatenation of the pieces -/
+theorem encode_pieces (ctx : Ctx) (pieces : List (List Byte)) :
+    gstuffingV ctx pieces = encode ctx pieces.flatten := by
+  simp [gstuffingV, stuffPieces_eq, encode, strmcrc8]
+
+theorem gstuffing_eq_encode (ctx : Ctx) (p : List Byte) : gstuffing ctx p = encode ctx p := by
+  simp [gstuffing, encode_pieces]
+
+/-- frame shape: START :: body ++ [STOP], no marker inside, at most 2n+4 bytes -/
+theorem frame_shape (ctx : Ctx) (h : ctx.WF) (p : List Byte) :
+    ∃ body, encode ctx p = ctx.start :: (body ++ [ctx.stop]) ∧
+      (∀ b ∈ body, b ≠ ctx.start ∧ b ≠ ctx.stop) ∧
+      (encode ctx p).length ≤ 2 * p.length + 4 := by
+  refine ⟨p.flatMap (stuffByte ctx) ++ stuffByte ctx (strmcrc8 0xFF#8 p), rfl, ?_, ?_⟩
+  · intro b hb
+    rcases List.mem_append.mp hb with hb | hb
+    · obtain ⟨c, _, hc⟩ := List.mem_flatMap.mp hb
+      exact stuffByte_no_marker ctx h c b hc
+    · exact stuffByte_no_marker ctx h _ b hb
+  · have h1 := flatMap_stuff_length_le ctx p
+    have h2 := stuffByte_length_le ctx (strmcrc8 0xFF#8 p)
+    simp only [encode, List.length_cons, List.length_append, List.length_nil]; omega
+
+/-- ROUND TRIP.  For every well-formed alphabet, payload, receiver that is
+between frames (fresh, after a packet, after an error, or hunting) and capacity
+`≥ |p| + 2`: every byte of the frame but the last answers CONTINUE, the last
+answers NEWPACKAGE, and the delivered line is exactly the payload. -/
+theorem roundtrip (ctx : Ctx) (h : ctx.WF) (p : List Byte) (r : Recv) (hidle : Idle r)
+    (hcap : p.length + 2 ≤ r.cap) :
+    ∃ ss, feed ctx r (encode ctx p) =
+        ({ r with state := .s0, crc := 0#8, line := p }, ss ++ [NEWPACKAGE]) ∧ AllCont ss := by
+  have hbody : p.flatMap (stuffByte ctx) ++ stuffByte ctx (strmcrc8 0xFF#8 p) =
+      (p ++ [strmcrc8 0xFF#8 p]).flatMap (stuffByte ctx) := by simp
+  unfold encode
+  rw [hbody]
+  simp only [feed, newchar_start_idle ctx r hidle, feed_append]
+  obtain ⟨e1, a1⟩ := feed_stuffed ctx h (p ++ [strmcrc8 0xFF#8 p])
+    { r with state := .s1, crc := 0xFF#8, line := [] } rfl (by simp; omega)
+  rw [e1]
+  have hcrc : (p ++ [strmcrc8 0xFF#8 p]).foldl strmStep 0xFF#8 = 0#8 := by
+    rw [List.foldl_append]; simp only [List.foldl_cons, List.foldl_nil]
+    exact strmStep_self _
+  simp only [List.nil_append, hcrc]
+  rw [newchar_stop_inframe ctx _ rfl (by simp) rfl]
+  refine ⟨CONTINUE :: (feed ctx { r with state := .s1, crc := 0xFF#8, line := [] }
+      ((p ++ [strmcrc8 0xFF#8 p]).flatMap (stuffByte ctx))).2, ?_, ?_⟩
+  · simp
+  · intro s hs
+    rcases List.mem_cons.mp hs with rfl | hs
+    · rfl
+    · exact a1 s hs
+
+/-- both shipped alphabets round-trip every payload from a freshly initialised receiver -/
+theorem roundtrip_shipped (p : List Byte) (cap : Nat) (hcap : p.length + 2 ≤ cap) :
+    (∃ ss, feed Ctx.v1 (Recv.init cap) (gstuffing Ctx.v1 p) =
+        (⟨.s0, 0#8, p, cap⟩, ss ++ [NEWPACKAGE]) ∧ AllCont ss) ∧
+    (∃ ss, feed Ctx.v0 (Recv.init cap) (gstuffing Ctx.v0 p) =
+        (⟨.s0, 0#8, p, cap⟩, ss ++ [NEWPACKAGE]) ∧ AllCont ss) := by
+  constructor
+  · rw [gstuffing_eq_encode]
+    exact roundtrip Ctx.v1 shipped_alphabets_wf.1 p (Recv.init cap) (Or.inl rfl) hcap
+  · rw [gstuffing_eq_encode]
+    exact roundtrip Ctx.v0 shipped_alphabets_wf.2 p (Recv.init cap) (Or.inl rfl) hcap
+
+/-- the self-sizing encoders (buffer `2n+4` after `fix: … reserve the worst-case
+frame length`) never write outside their buffer, for every alphabet -/
+theorem encoder_buffer (ctx : Ctx) (pieces : List (List Byte)) :
+    gstuffingVec ctx pieces = some (gstuffingV ctx pieces) := by
+  unfold gstuffingVec
+  have h1 := flatMap_stuff_length_le ctx pieces.flatten
+  have h2 := stuffByte_length_le ctx (strmcrc8 0xFF#8 pieces.flatten)
+  have hl : pieces.flatten.length = (pieces.map List.length).sum := by
+    simp [List.length_flatten]
+  have : (gstuffingV ctx pieces).length ≤ vecBufSize (pieces.map List.length).sum := by
+    rw [encode_pieces, ← hl]
+    simp only [encode, vecBufSize, List.length_cons, List.length_append, List.length_nil]; omega
+  simp [this]
+
+/-- historical: with the buffer size `2n+2` used before the repair the empty
+payload already needs more room than the buffer has -/
+theorem encoder_buffer_old_witness : ¬ ((gstuffingV Ctx.v1 [[]]).length ≤ 0 * 2 + 2) := by decide
+
+/-! ### legacy C codec (gstuffing_v1 / gstuff_autorecv_newchar_v1) -/
+
+/-- legacy frame shape: AC :: body ++ [AC], no AC inside, at most 2n+4 bytes -/
+theorem frame_shape_leg (p : List Byte) :
+    ∃ body, gstuffingLeg p = legStart :: (body ++ [legStart]) ∧
+      (∀ b ∈ body, b ≠ legStart) ∧ (gstuffingLeg p).length ≤ 2 * p.length + 4 := by
+  rw [gstuffingLeg_eq]
+  refine ⟨p.flatMap legStuffByte ++ legStuffByte (strmcrc8 0xFF#8 p), rfl, ?_, ?_⟩
+  · intro b hb
+    rcases List.mem_append.mp hb with hb | hb
+    · obtain ⟨c, _, hc⟩ := List.mem_flatMap.mp hb
+      exact legStuffByte_no_marker c b hc
+    · exact legStuffByte_no_marker _ b hb
+  · have h1 : (p.flatMap legStuffByte).length ≤ 2 * p.length := by
+      induction p with
+      | nil => simp
+      | cons c cs ih =>
+        have := legStuffByte_length_le c
+        simp only [List.flatMap_cons, List.length_append, List.length_cons]; omega
+    have h2 := legStuffByte_length_le (strmcrc8 0xFF#8 p)
+    simp only [encodeLeg, List.length_cons, List.length_append, List.length_nil]; omega
+
+/-- LEGACY ROUND TRIP (after `fix: gstuffing_v1 escapes the CRC byte`): from a
+receiver in state 0, capacity `≥ |p|+2`, every byte but the last answers
+CONTINUE, the last NEWPACKAGE; the line holds payload ++ [crc] (legacy
+convention: the CRC byte is left in the line), i.e. the packet = line without
+its last byte = the payload. -/
+theorem roundtrip_leg (p : List Byte) (r : LRecv) (hs : r.state = .l0) (hcap : p.length + 2 ≤ r.cap) :
+    ∃ ss, lfeed r (gstuffingLeg p) =
+        ({ r with state := .l0, crc := 0#8, line := p ++ [strmcrc8 0xFF#8 p] }, ss ++ [NEWPACKAGE]) ∧
+      AllCont ss ∧ (p ++ [strmcrc8 0xFF#8 p]).dropLast = p := by
+  rw [gstuffingLeg_eq]
+  have hbody : p.flatMap legStuffByte ++ legStuffByte (strmcrc8 0xFF#8 p) =
+      (p ++ [strmcrc8 0xFF#8 p]).flatMap legStuffByte := by simp
+  unfold encodeLeg
+  rw [hbody]
+  obtain ⟨st, crc, line, cap⟩ := r
+  simp only at hs hcap; subst hs
+  have hfirst : lnewchar ⟨.l0, crc, line, cap⟩ legStart = (⟨.l1, 0xFF#8, [], cap⟩, CONTINUE) := by
+    simp [lnewchar]
+  simp only [lfeed, hfirst, lfeed_append]
+  obtain ⟨e1, a1⟩ := lfeed_stuffed (p ++ [strmcrc8 0xFF#8 p]) ⟨.l1, 0xFF#8, [], cap⟩ rfl (by simp; omega)
+  rw [e1]
+  have hcrc : (p ++ [strmcrc8 0xFF#8 p]).foldl strmStep 0xFF#8 = 0#8 := by
+    rw [List.foldl_append]; simp only [List.foldl_cons, List.foldl_nil]
+    exact strmStep_self _
+  simp only [List.nil_append, hcrc]
+  have hlast : lnewchar ⟨.l1, 0#8, p ++ [strmcrc8 0xFF#8 p], cap⟩ legStart =
+      (⟨.l0, 0#8, p ++ [strmcrc8 0xFF#8 p], cap⟩, NEWPACKAGE) := by
+    simp [lnewchar]
+  rw [hlast]
+  refine ⟨CONTINUE :: (lfeed ⟨.l1, 0xFF#8, [], cap⟩ ((p ++ [strmcrc8 0xFF#8 p]).flatMap legStuffByte)).2, ?_, ?_, ?_⟩
+  · simp
+  · intro s hs
+    rcases List.mem_cons.mp hs with rfl | hs
+    · rfl
+    · exact a1 s hs
+  · simp
+
+/-- historical: before the repair the legacy encoder wrote the CRC unescaped;
+for the payload [00] the CRC is the start marker itself -/
+theorem legacy_crc_is_marker_witness : strmcrc8 0xFF#8 [0x00#8] = legStart := by decide
+
 end Igris.Gstuff
